@@ -1,5 +1,11 @@
 #include "gen.h"
 
+uint64_t pages_page_size(uint64_t p)
+{
+        static const uint64_t ps[] = { 4096, 8192, 16384, 32768, 65536 };
+        return ps[p % 5];
+}
+
 void far_copies(uint8_t *d, size_t n, uint64_t seed)
 {
         Rng r(seed, "farcopy");
@@ -57,6 +63,31 @@ std::vector<uint8_t> make_data(const Json &spec)
                 }
                 for (uint64_t i = pre; i < n; i++)
                         d[i] = 0xff;
+                return d;
+        }
+        if (kind == DK_PAGES) {
+                // page-structured data (a database file): pages of 4-64 KiB, each an 8-byte magic from a set of two or three followed by a
+                // low-entropy body.  The same bytes recur at exact page multiples (32 KiB and 64 KiB included) and callers of such data
+                // tend to feed and flush page-wise.
+                uint64_t P = pages_page_size(p), np = n / P;
+                if (np < 2)
+                        np = 2;
+                if (np * P > 262144)
+                        np = std::max<uint64_t>(2, 262144 / P);
+                std::vector<uint8_t> d(np * P);
+                uint8_t magic[3][8];
+                for (auto &mg : magic)
+                        for (auto &b : mg)
+                                b = (uint8_t) ('A' + r.below(26));
+                for (uint64_t pg = 0; pg < np; pg++) {
+                        const uint8_t *mg = magic[r.below(3) ? 0 : 1 + r.below(2)];
+                        uint8_t *q = d.data() + pg * P;
+                        memcpy(q, mg, 8);
+                        int style = (int) r.below(3);
+                        uint64_t rec = 16 + r.below(200);
+                        for (uint64_t i = 8; i < P; i++)
+                                q[i] = style == 0 ? (uint8_t) ('a' + r.below(4)) : style == 1 ? (uint8_t) ((i % rec) * 13 + pg) : (uint8_t) (r.chance(1, 8) ? r.u64() : 0);
+                }
                 return d;
         }
         if (kind == DK_LITCOPY) // sizes itself: one block of literals, the copies, a short tail
